@@ -206,13 +206,24 @@ def _same_content(a, b):
         except Exception:
             return False
     return False  # two different objects: a container slot was rebound
+def _table_column(a):
+    """a 1-D integer array of CONCRETE length (e.g. `np.arange(0, 5)` on a table of exactly five rows) read as a symbolic array of that
+    length (the rule only reads the topology)"""
+    from .values import NArr
+
+    if isinstance(a, NArr) and a.ndim == 1 and a.kind in ("int", "bool"):
+        arr = z3.K(I, z3.IntVal(0))
+        for j, x in enumerate(a.items):
+            arr = z3.Store(arr, j, to_z3(x, "int"))
+        return SArr(arr, len(a.items), "int", name="column")
+    return a
 
 
 def apply(eng, rule: Rule, fr, topology, enter, leave, root):
     from .spec import Frame  # noqa: F401
 
     lab = f"{(eng.cur_key or '?').split(':')[-1]}/{rule.label}"
-    ids, pids = topology
+    ids, pids = (_table_column(a) for a in topology)
     if not (isinstance(ids, SArr) and isinstance(pids, SArr)):
         raise Unsupported("traverse rule: topology must be two symbolic arrays")
     P, n = pids.arr, ids.nz()
